@@ -27,7 +27,7 @@ class Namer:
 
 @st.composite
 def scope_programs(draw, tier, fail=2, volatile=2, until=3, late_spawn=2, priv=1, flags=True,
-                   finally_spawn=1):
+                   finally_spawn=1, nocatch=0, uncaught_blocks=0):
     """A program whose roots own trees of nested Scope/until blocks.
 
     Weights (0..10) steer how often failures / volatile children / until-blocks / late spawns occur.
@@ -88,7 +88,8 @@ def scope_programs(draw, tier, fail=2, volatile=2, until=3, late_spawn=2, priv=1
     def block(depth, scope_chain):
         name = nm.blk()
         chain = scope_chain + [name]
-        blk = {'op': 'scope', 'name': name, 'catch': True, 'children': [], 'body': []}
+        blk = {'op': 'scope', 'name': name, 'catch': not (depth > 0 and w(uncaught_blocks)),
+               'children': [], 'body': []}
         if w(until):
             blk['op'] = 'until'
             k = draw(st.integers(0, 9))
@@ -112,6 +113,11 @@ def scope_programs(draw, tier, fail=2, volatile=2, until=3, late_spawn=2, priv=1
             if m == 0:
                 ch['after'] = draw(st.sampled_from([0, 0.5, 1, 2]))
             blk['children'].append(ch)
+        if nocatch and len(blk['children']) >= 1 and w(nocatch):
+            cn = nm.act()
+            targets.append(cn)
+            ref = draw(st.sampled_from([c['name'] for c in blk['children']]))
+            blk['children'].append({'name': cn, 'steps': [sl(), {'op': 'await_task', 'ref': ref, 'nocatch': True}, sl()]})
         blk['body'] = activity_steps(depth, chain)
         if blk['op'] == 'until' and draw(st.integers(0, 3)) == 0:
             blk['body'].append({'op': 'eternity'})
